@@ -10,7 +10,10 @@ def returns_of(func):
 
 def calls_in(node, nested=False):
     it = ast.walk(node) if nested else walk_no_nested(node)
-    return [n for n in it if isinstance(n, ast.Call)]
+    out = [n for n in it if isinstance(n, ast.Call)]
+    if isinstance(node, ast.Call) and not nested:
+        out.insert(0, node)
+    return out
 
 
 def call_name(call):
